@@ -3,17 +3,20 @@ from vlib import common as C
 from vlib import dcheck, directed
 
 LEVEL = "proof"
-DRIVERS = ["daemon", "alloc", "accept"]
+DRIVERS = ["daemon", "alloc", "accept", "startup"]
 
 
 def run(ctx, out):
     dcheck.run_property(ctx, out, "C07", "mon_c07", n_quick=300, n_thorough=5000,
                         gen_kw=dict(ws_share=0.4, batches=0.1, malformed=0.06, faults=True),
-                        directed=directed.regressions() + directed.batch_orders() + directed.close_positions(ctx.thorough))
+                        directed=directed.regressions() + directed.batch_orders() + directed.close_positions(ctx.thorough) + directed.orphan_routes())
     from vlib.props import alloc_tie
     alloc_tie.run_alloc_tie(ctx, out)
     # descriptor hygiene of the accept path: real linux_io.c against Cjet.Accept on every single/double fault position
     from vlib import accept_tie
     accept_tie.run_accept_tie(ctx, out)
+    # start-up / shut-down of run_io: every configuration x every single, double (thorough: triple) failure position on the real linux_io.c
+    from vlib import startup_tie
+    startup_tie.run_startup_tie(ctx, out)
     out.assumptions += ["allocator: the OS never grants a request of 2^63 bytes or more (hypothesis OsOk of cap_respected)",
                         "timer ledger: address tokens are '_'-free and fewer than 2^32 requests per run (the hypotheses of C03's rid_unique)"]
